@@ -333,6 +333,29 @@ def step (s : St) : Step → St
 
 def run (s : St) (steps : List Step) : St := steps.foldl step s
 
+/-! ## the code before the `fix:` commits (kept for the witness theorems of Props/C32.lean) -/
+
+/-- `assigned_pipelines.retain(|p| p != name)`: drops *every* entry of that name -/
+def Worker.popAll (n : Name) (w : Worker) : Worker :=
+  { w with assigned := w.assigned.filter (· != n), running := w.running - 1 }
+
+/-- `commit_teardown_group` before the repair (`retain`) -/
+def commitTeardownRetain (s : St) (g : GId) (tasks : List (Name × WId)) : St :=
+  let s1 := tasks.foldl (fun s t => s.updW t.2 (Worker.popAll t.1)) s
+  { s1 with placements := s1.placements.filter (fun r => r.gid != g),
+            groups := s1.groups.filter (fun x => x.1 != g) }
+
+/-- `commit_migrate_pipeline` before the repair: no re-validation; the placement is replaced only if the
+group still exists, the worker bookkeeping is updated regardless -/
+def commitMigrateUnchecked (s : St) (p : MigPlan) (success : Bool) : St :=
+  if success then
+    let s1 := if s.hasGroup p.gid then
+        s.insertP { gid := p.gid, name := p.name, worker := p.target, status := .running, hasId := true,
+                    epoch := ((s.getP p.gid p.name).map (·.epoch + 1)).getD 1 }
+      else s
+    (s1.updW p.target (Worker.push p.name)).updW p.source (Worker.popAll p.name)
+  else s
+
 /-! ## the bookkeeping invariant (decidable form) and the step guards of the partial theorem -/
 
 /-- decidable form of `BookInv` (Lemmas/CoordBook.lean, `bookInvB_iff`): every running placement has a
